@@ -3,7 +3,7 @@ from __future__ import annotations
 
 from ..lin import Lin
 from ..avals import *   # noqa
-from ..decide import Runs, need_ge0, need_eq0, definite, soft
+from ..decide import require_instances, Runs, need_ge0, need_eq0, definite, soft
 from ..report import Ob, PROVED, REFUTED, UNDECIDED, func_where, ASSUMPTIONS
 from ..model import norm_text
 
@@ -419,6 +419,7 @@ def check(prog, res, tier):
         it.call_function(bfi, [fin, fout], {})
         return None
     runs_b = Runs(prog, entry_b, res=res)
+    seen_e = {'reads': 0}
 
     def chk_e(p, mode):
         u = p.interp.user
@@ -460,10 +461,24 @@ def check(prog, res, tier):
                     if not is_pad_seg(g):
                         fails.append(definite(f'block contains bytes that are neither the chunk nor 0x40 padding: {g!r}', e.node))
                 fails += need_ge0(p.store, Lin.const(PAYLOAD) - chunk.length(), 'chunk longer than the payload size', e.node)
+        # every chunk that is read is written: only the empty read at the end of the data is followed by no write
+        if p.outcome in ('return', 'loopback'):
+            evs = [e for e in p.events if (e.kind == 'read' and e.data['file'] is u['in']) or (e.kind == 'write' and e.data['file'] is u['out'])]
+            for i, e in enumerate(evs):
+                if e.kind != 'read':
+                    continue
+                seen_e['reads'] += mode == 'inv'
+                blk = e.data['data']
+                nxt = evs[i + 1] if i + 1 < len(evs) else None
+                written = nxt is not None and nxt.kind == 'write' and isinstance(nxt.data['data'], SeqV) and blk.segs and \
+                    any(isinstance(g, Sl) and g.src is blk.segs[0].src for g in nxt.data['data'].segs)
+                if not written:
+                    fails += need_eq0(p.store, blk.length(), 'a chunk is read from the input but no block is written for it', e.node)
         return fails
-    res.add(runs_b.judge('C04.e', 'block_1014 emits per 1012-byte chunk: chunk ++ 0x40 fill ++ 2-byte 0x40 trailer = 1014 bytes',
+    res.add(require_instances(runs_b.judge('C04.e', 'block_1014 emits per 1012-byte chunk: chunk ++ 0x40 fill ++ 2-byte 0x40 trailer = 1014 bytes',
                          func_where(bfi), 'output_data.write(record + pad_char * 2)', chk_e,
-                         sample=lambda ps: [repr(e.data['data']) for p in ps for e in p.evs('write')][:3]))
+                         sample=lambda ps: [repr(e.data['data']) for p in ps for e in p.evs('write')][:3]),
+                              seen_e['reads'], 'a read of the input by block_1014'))
 
     # ---- C04.f pad constant
     ob = Ob('C04.f', 'pad byte is 0x40 in Block1014', func_where(prog.func('mciipm.Block1014.write')), 'Block1014.PAD_CHAR')
